@@ -17,6 +17,7 @@ import (
 	"verifharness/lib/mon"
 	"verifharness/lib/refrtmp"
 	"verifharness/lib/vnet"
+	"verifharness/lib/vrand"
 )
 
 type verifEv struct {
@@ -114,6 +115,25 @@ func (x *verifC04Run) deliver(tid float64, reqName string, kind string) (seq int
 	return
 }
 
+// peerControl lets the peer announce its acknowledgement window and bandwidth first, as servers do right after the
+// handshake.  An endpoint that reacts to them (acknowledgements) must not do so from the reader goroutine through the
+// writer goroutine's stream.
+func (x *verifC04Run) peerControl(r *vrand.Rand) {
+	was := NewWindowAcknowledgementSize()
+	was.AckSize = uint32(r.Pick(1, 64, 300, 2500000))
+	spb := NewSetPeerBandwidth()
+	spb.Bandwidth = uint32(r.Pick(64, 2500000))
+	x.fifoMu.Lock()
+	defer x.fifoMu.Unlock()
+	x.peerQ.Log = x.peerQ.Log[:0]
+	x.peer.WritePacket(was, 0)
+	if r.Bool() {
+		x.peer.WritePacket(spb, 0)
+	}
+	x.toReader.Write(append([]byte(nil), x.peerQ.Log...))
+	x.m.Count("runs_where_the_peer_announced_its_ack_window", 1)
+}
+
 func (x *verifC04Run) readerLoop(p *Protocol, done chan struct{}) {
 	defer close(done)
 	for {
@@ -122,6 +142,9 @@ func (x *verifC04Run) readerLoop(p *Protocol, done chan struct{}) {
 			return
 		}
 		pkt, derr := p.DecodeMessage(msg)
+		if msg.MessageType != MessageTypeAMF0Command {
+			continue // protocol control from the peer (window size, bandwidth): decoded, not a response
+		}
 		x.fifoMu.Lock()
 		head := x.fifo[0]
 		x.fifo = x.fifo[1:]
@@ -180,6 +203,9 @@ func TestVerif_C04_Schedules(t *testing.T) {
 		ep := NewProtocol(vnet.RW{Reader: x.toReader, Writer: x})
 		done := make(chan struct{})
 		var wg sync.WaitGroup
+		if r.Chance(1, 2) {
+			x.peerControl(r)
+		}
 		m.Go(&wg, "rtmp.c04.reader", func() { x.readerLoop(ep, done) })
 
 		nreq := r.Range(1, 20)
@@ -487,6 +513,9 @@ func TestVerif_C04_Stress(t *testing.T) {
 		ep := NewProtocol(vnet.RW{Reader: x.toReader, Writer: x})
 		done := make(chan struct{})
 		var wg sync.WaitGroup
+		if r.Chance(1, 2) {
+			x.peerControl(r)
+		}
 		m.Go(&wg, "rtmp.c04.reader", func() { x.readerLoop(ep, done) })
 		var chans []chan string
 		var mu sync.Mutex
